@@ -45,6 +45,15 @@ func rangeArithmeticRules(r *Report, name string, f *ssa.Function) {
 			}
 		}
 	}
+	// positions up to the largest int are parsed (a narrower parse turns a large last position,
+	// which only needs clamping, into an error)
+	for _, g := range w.staticReach(f) {
+		for _, c := range plainCalls(g, "strconv.ParseInt", "strconv.ParseUint") {
+			if k, isK := constInt(c.Call.Args[2]); isK && k != 0 && k < 64 {
+				r.Fail("table", key(fmt.Sprintf("positions are parsed in at least 64 bits (%s)", fnName(g))), "a byte position is parsed with a bit size below 64: a last position of 2^31 or more, which the specification clamps to the end of the content, is answered with an error", nil, c.Pos())
+			}
+		}
+	}
 	var pair *ssa.Alloc
 	for _, in := range instrs(f) {
 		if a, ok := in.(*ssa.Alloc); ok && a.Type().String() == "*[2]int" {
